@@ -92,6 +92,7 @@ Inductive pc :=
 | MOpenCtxR (cl : bool) | MReadCtx (cl : bool) (f : N) | MCloseCtxR (cl : bool) (f : N) (out : N)
 | MOpenOwner (cl : bool) | MGetlkOwner (cl : bool) (f : N) | MCloseOwner (cl : bool) (f : N) (out : N)
 | MAccessState (cl : bool) | MOpenState (cl : bool) | MGetlkState (cl : bool) (f : N) | MCloseState (cl : bool) (f : N) (out : N)
+| MFstatState (cl : bool) (f : N)               (* only in the candidate repair `nlink_check` *)
 (* ProcessCleaner::new after state() = Dead *)
 | XOpenCtx | XOpenOwner (c : N) | XOpenState (c o : N) | XGetlkSt (c o s : N) | XSetlkOw (c o s : N) | XSetlkFstat (c o s : N).
 
@@ -127,6 +128,10 @@ Definition create_code (e : errno) : N :=
 
 Section Step.
 Variable priv : bool.     (* the processes run with CAP_DAC_OVERRIDE (root) *)
+(* false = the code as it is.  true = candidate repair of F3 explored by the check (NOT in /repo):
+   state() re-checks with fstat that an unlocked state file is still linked; nlink = 0 means the
+   owner is removing it in an orderly drop => CleaningUp instead of Dead *)
+Variable nlink_check : bool.
 
 Definition T := option (fs * lst * list pev).
 Definition go (s : fs) (l : lst) (c : pc) (e : list pev) : T := Some (s, set_pc l c, e).
@@ -369,9 +374,15 @@ Definition raw_step (t : nat) (s : fs) (l : lst) : T :=
     let '(r, s') := fs_getlk t f LWrite s in
     match r with
     | FOk (Some (LWrite, _)) => go s' l (MCloseState cl f VAlive) [ECall R_STATE (KGetlk LWrite) (RLock (Some LWrite))]
-    | FOk (Some (LRead, _)) => go s' l (MCloseState cl f VDead) [ECall R_STATE (KGetlk LWrite) (RLock (Some LRead))]
-    | FOk None => go s' l (MCloseState cl f VDead) [ECall R_STATE (KGetlk LWrite) (RLock None)]
+    | FOk (Some (LRead, _)) => go s' l (if nlink_check then MFstatState cl f else MCloseState cl f VDead) [ECall R_STATE (KGetlk LWrite) (RLock (Some LRead))]
+    | FOk None => go s' l (if nlink_check then MFstatState cl f else MCloseState cl f VDead) [ECall R_STATE (KGetlk LWrite) (RLock None)]
     | FErr er => go s' l (MCloseState cl f VErrOther) [ECall R_STATE (KGetlk LWrite) (RErr er)]
+    end
+  | MFstatState cl f =>
+    let '(r, s') := fs_fstat t f s in
+    match r with
+    | FOk (m, nl, _) => go s' l (MCloseState cl f (if N.eqb nl 0 then VCleaning else VDead)) [ECall R_STATE KFstat (RStat m nl)]
+    | FErr er => go s' l (MCloseState cl f VErrOther) [ECall R_STATE KFstat (RErr er)]
     end
   | MCloseState cl f out =>
     let '(r, s') := fs_close t f s in
